@@ -837,3 +837,9 @@ pub mod tests {
         assert!(backend.read().unwrap().acked_features == 0);
     }
 }
+
+// Verification harnesses (Kani); the sources live outside this repository.
+#[cfg(feature = "verif")]
+mod verif {
+    include!(concat!(env!("VHOST_VERIF_DIR"), "/harness/vub_backend.rs"));
+}
